@@ -383,7 +383,65 @@ def check_stateless(run, db):
         run.broke('R-STATELESS found no shared-object write at all in a leak-checking configuration [%s]' % db.config)
 
 
+THREAD_SAFE_ALLOWLIST = {'joint_allocator': 'documented: the joint memory belongs to one object; is_thread_safe_allocator<joint_allocator> is an explicit specialisation in joint_allocator.hpp'}
+
+
+def has_state(db, cls, depth=0):
+    rec = db.classes.get(cls)
+    if rec is None or depth > 6:
+        return None
+    if rec['fields']:
+        return True
+    for b in rec['bases']:
+        hs = has_state(db, b['t'], depth + 1)
+        if hs:
+            return True
+    return False
+
+
+def check_trait(run, db):
+    """every instantiation is_thread_safe_allocator<X> that says `true` is about an X without data members"""
+    n = 0
+    for name, rec in db.classes.items():
+        if cls_template(name) != 'is_thread_safe_allocator' or rec.get('pattern'):
+            continue
+        val = None
+        for b in rec['bases']:
+            if 'integral_constant<bool, true>' in b['t']:
+                val = True
+            elif 'integral_constant<bool, false>' in b['t']:
+                val = False
+            else:
+                inner = db.classes.get(b['t'])
+                # derived from another instantiation of the trait
+                for bb in (inner or {}).get('bases', []):
+                    if 'integral_constant<bool, true>' in bb['t']:
+                        val = True
+                    elif 'integral_constant<bool, false>' in bb['t']:
+                        val = False
+        if val is None:
+            continue
+        X = name[name.index('<') + 1:-1]
+        n += 1
+        inst = '%s [%s]' % (strip_ns(name), db.config)
+        if not val:
+            run.ok('R-MUTEX-TRAIT', inst, rec['loc'], 'needs the mutex')
+            continue
+        if cls_template(X) in THREAD_SAFE_ALLOWLIST:
+            run.ok('R-MUTEX-TRAIT', inst, rec['loc'], 'listed: ' + THREAD_SAFE_ALLOWLIST[cls_template(X)])
+            continue
+        hs = has_state(db, X)
+        if hs:
+            run.violation('R-MUTEX-TRAIT', inst, rec['loc'],
+                          '%s has data members (directly or through a base) but the thread-safety trait says it needs no mutex: thread_safe_allocator over it takes no lock' % strip_ns(X),
+                          site={'function': 'is_thread_safe_allocator<%s>' % cls_template(X), 'role': 'thread-safety trait'})
+        else:
+            run.ok('R-MUTEX-TRAIT', inst, rec['loc'], 'no data members: stateless')
+    return n
+
+
 def run(run):
+    run.rule('R-MUTEX-TRAIT', 'is_thread_safe_allocator<X> is true only for types without data members (or listed with a reason)', floor=5)
     run.rule('R-LOCK', 'every event reaching the wrapped allocator in a forwarding member of allocator_storage is executed '
                        'while an RAII lock on the storage\'s own mutex is held (forward must-dataflow over each CFG)', floor=50)
     run.rule('R-LOCK-PROXY', 'lock() builds the proxy from the own mutex; proxy ctor locks, dtor unlocks unless moved-from, move nulls source', floor=6)
@@ -406,6 +464,7 @@ def run(run):
         check_proxy(run, db)
         check_mutex_storage(run, db)
         check_stateless(run, db)
+        check_trait(run, db)
     witness.run_witness(run, 'W-mutex', 'c13_mutex.cpp', cfgs,
                         compilers=('clang++',) if run.tier == 'quick' else ('clang++', 'g++'))
     selftest(run)
